@@ -83,7 +83,8 @@ static ptg_dc_t *ptg_dc_new(int rank, int world, int nt)
     m->nt = nt;
     m->data = calloc(nt, sizeof(parsec_data_t *));
     m->ptr = calloc((size_t)nt * PTG_TILE, sizeof(int32_t));
-    for (int t = 0; t < nt; t++) m->ptr[t * PTG_TILE] = 1000 + t;      /* initial contents: tile t holds 1000+t */
+    /* initial contents: tile t holds 1000+t; element j of a tile always holds element 0 plus j (checked by ptg_flow) */
+    for (int t = 0; t < nt; t++) for (int j = 0; j < PTG_TILE; j++) m->ptr[t * PTG_TILE + j] = 1000 + t + j;
     return m;
 }
 static void ptg_dc_free(ptg_dc_t *m)
@@ -163,6 +164,8 @@ void ptg_flow(int th, int flow, int mode, void *ptr)
     if (flow >= PTG_MAXF) return;
     s->mode[flow] = mode; s->ptr[flow] = (int32_t *)ptr;
     s->in[flow] = (ptr != NULL && (mode & PTG_READ)) ? ((int32_t *)ptr)[0] : PTG_NONE;
+    if (ptr != NULL && (mode & PTG_READ))       /* a copy that is not whole (element j != element 0 + j) is seen as a value nobody writes */
+        for (int j = 1; j < PTG_TILE; j++) if (((int32_t *)ptr)[j] != ((int32_t *)ptr)[0] + j) { s->in[flow] = -1000000 - j; break; }
     if (flow + 1 > s->nfl) s->nfl = flow + 1;
 }
 
@@ -191,7 +194,7 @@ int ptg_task_end(int th, int cls, int nloc, ...)
             out[f] = h;
         }
     }
-    for (int f = 0; f < s->nfl; f++) if (out[f] != PTG_NONE) s->ptr[f][0] = (int32_t)out[f];
+    for (int f = 0; f < s->nfl; f++) if (out[f] != PTG_NONE) for (int j = 0; j < PTG_TILE; j++) s->ptr[f][j] = (int32_t)out[f] + j;
     /* the end stamp is taken after all effects of the body */
     ptg_ev_t *e = ptg_new_ev('E', th, cls, nloc, ap);
     va_end(ap);
@@ -352,7 +355,10 @@ int ptg_rt_main(int argc, char **argv, int nglobals, ptg_make_fn mk, ptg_initial
     int32_t *mine = NULL;
     if (getenv("PTG_GATHER")) {
         mine = malloc(sizeof(int32_t) * (size_t)dc->nt);
-        for (int t = 0; t < dc->nt; t++) mine[t] = dc->ptr[t * PTG_TILE];
+        for (int t = 0; t < dc->nt; t++) {
+            mine[t] = dc->ptr[t * PTG_TILE];
+            for (int j = 1; j < PTG_TILE; j++) if (dc->ptr[t * PTG_TILE + j] != dc->ptr[t * PTG_TILE] + j) { mine[t] = -1000000 - j; break; }
+        }
     }
     /* final contents of the collection (C02) */
     fprintf(ptg_out, "#final");
